@@ -32,6 +32,7 @@ CONSTANTS
   AttBound,       \* state constraint: largest attempt count explored
   ViewKeep,       \* which timestamps the exhaustive VIEW keeps (see View)
   Weights,        \* generation only: operation name -> weight (see GenNext)
+  RealBackoff,    \* TRUE: the model uses the documented curve min(max, min * 1.1^n) (lease family)
   GenBFS,         \* generation by exhaustive enumeration of all histories of length Depth (TLC BFS) instead of -simulate
   AckAll          \* TRUE: Ack/ModAck/Nack may name any delivery; FALSE: only delivered ones
 
@@ -70,7 +71,13 @@ SeqOfSet(X) == IF X = {} THEN <<>> ELSE LET x == Pick(X) IN <<x>> \o SeqOfSet(X 
 KSub(X, k) == IF Cardinality(X) <= k THEN {X}
               ELSE IF Cardinality(X) <= 7 THEN {c \in SUBSET X : Cardinality(c) = k}
               ELSE {TakeK(X, k)}
-MCBackoff(s, n) == Min2(S.subs[s].maxB, S.subs[s].minB + Max2(n, 1) - 1)
+\* min(max, min * 1.1^n) in integer arithmetic (floor at every step; defaults 10 s / 10 min)
+RECURSIVE Pow11(_, _, _)
+Pow11(b, cap, n) == IF b >= cap THEN cap ELSE IF n = 0 THEN b ELSE Pow11((b * 11) \div 10, cap, n - 1)
+RealBo(minB, maxB, n) ==
+  Pow11(IF minB > 0 THEN minB ELSE 10 * TU, IF maxB > 0 THEN maxB ELSE 600 * TU, n)
+MCBackoff(s, n) == IF RealBackoff THEN RealBo(S.subs[s].minB, S.subs[s].maxB, n)
+                   ELSE Min2(S.subs[s].maxB, S.subs[s].minB + Max2(n, 1) - 1)
 
 NewDelRec(s, n) == [n |-> n, done |-> -1, att |-> 0, at |-> S.now + S.subs[s].delay,
                     exp |-> S.now + S.subs[s].mttl, pub |-> S.now]
@@ -115,6 +122,25 @@ DeleteSub(nm) ==
   IF X = {} THEN Fail(e, "NotFound")
   ELSE OK(e, [S EXCEPT !.subs = [s \in DOMAIN @ |->
                  IF s \in X THEN [@[s] EXCEPT !.live = FALSE, !.delAt = S.now] ELSE @[s]]])
+
+\* UpdateSubscription with the configuration of entry c of SubCfgs as the new value and a mask
+UpdMasks == {<<"filt">>, <<"retry">>, <<"labels">>, <<"ttl">>, <<"mttl">>, <<"dl">>, <<"filt", "retry">>, <<"ord", "labels">>}
+UpdateSub(c, mask) ==
+  LET X == SubsNamed(S, c.name)
+      e == [op |-> "UpdateSub", name |-> c.name, mask |-> mask, cfg |-> c.cfg]
+      DT == IF c.cfg.dlt = "" THEN {0} ELSE TopicsNamed(S, c.cfg.dlt)
+      MF == MaskFields(mask)
+      cf == Dflt(c.cfg)
+  IN
+  IF X = {} THEN Fail(e, "NotFound")
+  ELSE IF "dl" \in RangeOf(mask) /\ DT = {} THEN Fail(e, "NotFound")
+  ELSE OK(e, [S EXCEPT !.subs = [s \in DOMAIN @ |->
+         IF s \notin X THEN @[s]
+         ELSE [f \in DOMAIN @[s] |->
+                 IF f = "dlt" /\ f \in MF THEN Pick(DT)
+                 ELSE IF f = "exp" /\ "ttl" \in MF THEN S.now + cf.ttl
+                 ELSE IF f \in MF /\ f # "dlt" THEN cf[f]
+                 ELSE @[s][f]]]])
 
 Delays == {0, 3}   \* injected delivery delays (seconds)
 SetDelay(nm, d) ==
@@ -176,6 +202,15 @@ Pull(snm, max) ==
 
 Delivered == {d \in Dels(S) : S.del[d].att > 0}
 AckPool == IF AckAll \/ Delivered = {} THEN Dels(S) ELSE Delivered
+\* a blocking pull with a short client deadline: delivers like Pull when something is due,
+\* otherwise ends with DeadlineExceeded having refreshed the subscription's expiry
+PullWait(snm) ==
+  LET X == SubsNamed(S, snm) e == [op |-> "PullTimeout", sub |-> snm, wait |-> TRUE] IN
+  IF X = {} THEN Fail(e, "NotFound")
+  ELSE IF Elig(Pick(X)) # {} THEN Pull(snm, 10)
+  ELSE Do(e @@ [code |-> "DeadlineExceeded"],
+          [S EXCEPT !.subs = [@ EXCEPT ![Pick(X)].exp = S.now + S.subs[Pick(X)].ttl]])
+
 IdSeqs == {q \in UNION {[1..n -> AckPool] : n \in 1..AckMax} :
              \A i, j \in DOMAIN q : i < j => S.del[q[i]].n < S.del[q[j]].n \/
                                             (S.del[q[i]].n = S.del[q[j]].n /\ q[i][2] < q[j][2])}
@@ -303,6 +338,15 @@ Tick(d) ==
   /\ LET e == [op |-> "Tick", d |-> d, t0 |-> S.now, t1 |-> S.now + d] IN
      /\ S' = [S EXCEPT !.now = @ + d] /\ ev' = e /\ hist' = IF Depth > 0 THEN Append(hist, e) ELSE hist
 
+\* advance the clock to just before / just after the earliest pending retry deadline
+SetMin(X) == CHOOSE x \in X : \A y \in X : x <= y
+NearOffsets == {0 - ((3 * TU) \div 2), (3 * TU) \div 2}
+TickNear(off) ==
+  LET F == {S.del[d].at : d \in {x \in Dels(S) : ~IsDone(S, x) /\ S.del[x].at > S.now /\ S.del[x].exp > S.now}} IN
+  /\ F # {}
+  /\ SetMin(F) + off > S.now
+  /\ Tick(SetMin(F) + off - S.now)
+
 Get(kind, nm) ==
   LET live == CASE kind = "topic" -> TopicsNamed(S, nm) # {}
                 [] kind = "sub" -> SubsNamed(S, nm) # {}
@@ -350,9 +394,12 @@ OpNext(op) ==
     [] op = "DeleteTopic" -> \E nm \in TopicNames : DeleteTopic(nm)
     [] op = "CreateSub" -> \E c \in SubCfgs : CreateSub(c)
     [] op = "DeleteSub" -> \E nm \in SubNames : DeleteSub(nm)
+    [] op = "UpdateSub" -> \E c \in SubCfgs, mk \in UpdMasks : UpdateSub(c, mk)
+    [] op = "UpdateFilter" -> \E c \in SubCfgs : UpdateSub(c, <<"filt">>)
     [] op = "SetDelay" -> \E nm \in SubNames, d \in Delays : SetDelay(nm, d)
     [] op = "Publish" -> \E nm \in TopicNames, b \in Batches : Publish(nm, b)
     [] op = "Pull" -> \E nm \in SubNames, k \in PullMaxes : Pull(nm, k)
+    [] op = "PullWait" -> \E nm \in SubNames : PullWait(nm)
     [] op = "Ack" -> \E nm \in SubNames, q \in IdSeqs : Ack(nm, q)
     [] op = "ModAck" -> \E nm \in SubNames, q \in IdSeqs, x \in ModSecs : ModAck(nm, q, x)
     [] op = "Nack" -> \E q \in IdSeqs : Nack(q)
@@ -364,8 +411,9 @@ OpNext(op) ==
     [] op = "ExpireSubs" -> \E k \in JobMaxes : ExpireSubs(k)
     [] op \in PruneJobs -> \E a \in JobAges, k \in JobMaxes : Prune(op, a, k)
     [] op = "Get" -> GetAny
-    [] op = "List" -> \E k \in {"topic", "sub", "snap"}, pr \in Projects, pg \in {0, 1, 2, 100} : List(k, pr, pg)
+    [] op = "List" -> \E k \in {"topic", "sub", "snap"}, pr \in Projects, pg \in {0, 1, 2, 3, 100} : List(k, pr, pg)
     [] op = "Tick" -> \E d \in TickDs : Tick(d)
+    [] op = "TickNear" -> \E off \in NearOffsets : TickNear(off)
 
 (* Generation (-simulate): TLC chooses uniformly among successor STATES,    *)
 (* which starves operations with few parameter choices (clock advances).    *)
